@@ -2465,15 +2465,19 @@ def scan(
     """
     _body_subgraph: Graph = subgraph(
         [
+            var.unwrap_tensor()
+            for var in initial_state_and_scan_inputs[
+                : len(initial_state_and_scan_inputs) - num_scan_inputs
+            ]
+        ]
+        + [
             Tensor(
                 var.unwrap_tensor().dtype,
                 (lambda x: x[1:] if x is not None else None)(var.unwrap_tensor().shape),
             )
-            for var in initial_state_and_scan_inputs[:num_scan_inputs]
-        ]
-        + [
-            Tensor(var.unwrap_tensor().dtype)
-            for var in initial_state_and_scan_inputs[num_scan_inputs:]
+            for var in initial_state_and_scan_inputs[
+                len(initial_state_and_scan_inputs) - num_scan_inputs :
+            ]
         ],
         body,
     )
